@@ -231,7 +231,20 @@ func Bounded(body func() string, opt Options) *Stats {
 	}
 	// level d explores exactly the sequences with d deviations: extend each sequence of level d-1 by one
 	// deviation placed after its last deviation.
-	type seed struct{ prefix []int }
+	// a sequence is stored as its deviations only (position, alternative): every other choice is the default 0,
+	// so a level of a 10 000-step execution costs a few words per sequence instead of the whole prefix
+	type dev struct{ pos, alt int }
+	type seed struct{ devs []dev }
+	expand := func(sd seed) []int {
+		if len(sd.devs) == 0 {
+			return nil
+		}
+		p := make([]int, sd.devs[len(sd.devs)-1].pos+1)
+		for _, d := range sd.devs {
+			p[d.pos] = d.alt
+		}
+		return p
+	}
 	level := []seed{{nil}}
 	for d := 0; d <= opt.MaxBound; d++ {
 		var next []seed
@@ -240,13 +253,14 @@ func Bounded(body func() string, opt Options) *Stats {
 				st.Wall = time.Since(t0).Seconds()
 				return st
 			}
-			x := RunOnce(body, sd.prefix)
+			prefix := expand(sd)
+			x := RunOnce(body, prefix)
 			st.add(x)
-			st.NewStates += int64(len(x.Ns)-len(sd.prefix)) + 1
+			st.NewStates += int64(len(x.Ns)-len(prefix)) + 1
 			if d == opt.MaxBound {
 				continue
 			}
-			for i := len(sd.prefix); i < len(x.Ns); i++ {
+			for i := len(prefix); i < len(x.Ns); i++ {
 				if opt.SchedOnly && x.Kinds[i] != "sched" {
 					continue
 				}
@@ -257,15 +271,15 @@ func Bounded(body func() string, opt Options) *Stats {
 					if opt.Allow != nil && x.Kinds[i] == "sched" && !opt.Allow(x.Enabled[i], alt) {
 						continue
 					}
-					if len(next) >= 2000000 {
-						st.Cap = "pending-sequence cap 2000000 (the sequences of the next level do not fit a sane amount of memory)"
+					if len(next) >= 20000000 {
+						st.Cap = "pending-sequence cap 20000000 (the sequences of the next level do not fit a sane amount of memory)"
 						st.Wall = time.Since(t0).Seconds()
 						return st
 					}
-					np := make([]int, i+1)
-					copy(np, x.Choices[:i])
-					np[i] = alt
-					next = append(next, seed{np})
+					nd := make([]dev, len(sd.devs)+1)
+					copy(nd, sd.devs)
+					nd[len(sd.devs)] = dev{i, alt}
+					next = append(next, seed{nd})
 				}
 			}
 		}
